@@ -9,6 +9,7 @@ import SIM.Driver.Registry
 import SIM.Driver.Retain
 import SIM.Driver.Json
 import SIM.Driver.Build
+import SIM.Driver.Std
 open SIM SIM.Driver
 
 def dispatch (stream : String) (toks : List String) : Verdict :=
@@ -21,6 +22,9 @@ def dispatch (stream : String) (toks : List String) : Verdict :=
   | "retain" => runP retain toks
   | "json" => runP json toks
   | "build" => runP build toks
+  | "std" => runP stdCase toks
+  | "meta" => runP metaCase toks
+  | "tinfo" => runP tinfoCase toks
   | _ => .unmodelled ("unknown stream " ++ stream)
 
 partial def loop (h : IO.FS.Stream) (out : IO.FS.Stream) : IO Unit := do
